@@ -1,6 +1,6 @@
 ----------------------------- MODULE MC_Verify -----------------------------
 EXTENDS Verify
-NamesQuick    == {"a", "ab"}
+NamesQuick    == {"a", "h"}
 NamesThorough == {"a", "ab", "h"}
 LastsNone     == {NoLast}
 LastsAll      == {NoLast, 40, 50, 60}
